@@ -153,7 +153,7 @@ func related(r *vlib.R, z string) string {
 }
 
 func genAddrHex(r *vlib.R, local []string) string {
-	switch r.Intn(14) {
+	switch r.Intn(22) {
 	case 0:
 		return vlib.Hex([]byte{127, 0, 0, 1})
 	case 1:
@@ -227,6 +227,9 @@ func genGlue(r *vlib.R, local []string, emit func(string)) {
 	var hosts []string
 	for i := 0; i < nh; i++ {
 		h := strings.ToLower(related(r, zone))
+		if r.Chance(1, 2) {
+			h = strings.ToLower(under(vlib.Pick(r, someLabels), zone))
+		}
 		if r.Chance(1, 12) {
 			h = flipCase(r, h) // a key the lookup can never hit
 		}
